@@ -79,7 +79,8 @@ def build_case(rec, pool, variant, status_code=None):
     private = ["priv-KEY/with+chars=and space", "s3cr3t&key?x=1#frag%41", "0b9f5c3e-7d1a-4c2b-9e8f-6a5d4c3b2a1f", "ünï-çødé/ключ+鍵"][variant % 4]
     c.sc = fa.Scenario(project="5f1a2b3c4d5e6f7a8b9c%04d" % (variant % 10000), cluster="Cluster%d" % (variant % 9),
                        conn_hosts=[hp for _, hp in c.names], payloads=payloads, auth=rec["auth"], faults=faults,
-                       public="pubKEY%d" % variant, private=private, chunked=(variant % 3 == 2))
+                       public=("pubKEY%d" % variant) if variant % 2 == 0 else ("mdb_sa_id_%024x" % variant),
+                       private=private if variant % 2 == 0 else ("mdb_sa_sk_%s" % private), chunked=(variant % 3 == 2))
     c.prepare = None
     c.encrypt = False
     if not rec.get("keyOk", True):
@@ -96,6 +97,12 @@ def build_case(rec, pool, variant, status_code=None):
             else:
                 os.mkdir(p)
         c.prepare = prepk
+    if fk == "outfull":
+        k = fat - 1
+
+        def prepf(d, k=k):
+            os.symlink("/dev/full", os.path.join(d, "out.log.%d" % k))
+        c.prepare = prepf
     if fk == "outdir":
         k = fat - 1
         how = variant % 2
@@ -134,9 +141,21 @@ def expected_outputs(b, c, flags, workdir, keyfile=None):
     return exp
 
 
-def run_case(b, c, workdir, flags=(), key_by="env", start=None, end=None, encrypt=False):
+def make_tzif(path, transition, off_before, off_after):
+    """A version-1 TZif file with one transition (a zone whose UTC offset changed at `transition`)."""
+    import struct
+    types = struct.pack(">ibB", off_before, 0, 0) + struct.pack(">ibB", off_after, 1, 4)
+    abbr = b"AAA\x00BBB\x00"
+    body = struct.pack(">i", int(transition)) + bytes([1]) + types + abbr
+    head = b"TZif" + b"\x00" + b"\x00" * 15 + struct.pack(">6I", 0, 0, 0, 1, 2, len(abbr))
+    with open(path, "wb") as f:
+        f.write(head + body)
+
+
+def run_case(b, c, workdir, flags=(), key_by="env", start=None, end=None, encrypt=False, extra_env=None):
     if c.rec["cli"]:
-        obs = al.run_atlas_cli(b, c.sc, workdir, flags=flags, key_by=key_by, start=start, end=end, prepare=c.prepare, encrypt=encrypt or c.encrypt)
+        obs = al.run_atlas_cli(b, c.sc, workdir, flags=flags, key_by=key_by, start=start, end=end, prepare=c.prepare, encrypt=encrypt or c.encrypt,
+                               extra_env=extra_env)
         obs["level"] = "cli"
     else:
         obs = al.run_atlas_lib(b, c.sc, workdir, start=start or 1700000000, end=end or 1700600000)
